@@ -18,9 +18,11 @@ META = {
                  "hand model of _break_cycles with structural correspondence, verified validators (validate_break / validate_clark) "
                  "run on every LogicDAG and CNF the implementation produces; exhaustive over atom assignments",
     "design_ref": "DESIGN.md §5 C09",
-    "text": "proof for Clark's completion (for every DAG and assignment the completion CNF has exactly one extension and it is dag_val; "
-            "weights, names, AD constraints copied); cycle breaking: unfolding lemmas proved for the model, memo reuse covered per instance by the "
-            "verified validator validate_break (translation validation, exhaustive over atom assignments)",
+    "text": "proof for Clark's completion (model translated from the source: for every DAG and assignment the completion CNF has exactly one "
+            "extension and it is dag_val; weights, names, AD constraints copied) and for cycle breaking (hand model of _break_cycles with the "
+            "translation memo and its reuse test: for every stratified ground program and every assignment each query/evidence key of the DAG "
+            "has the model value; C09_break_cycles_correct); in addition every LogicDAG / CNF instance produced by the implementation is checked "
+            "by the verified validators validate_break / validate_clark, exhaustively over atom assignments",
     "note": "Trusted: Coq kernel; extraction (ExtrOcamlBasic) + OCaml driver + Python encoders of LogicFormula/CNF objects; hand model of "
             "_break_cycles tied by structural equality of the produced DAG on generated inputs; evidence propagation (propagate_evidence=True) "
             "is not modelled.",
@@ -140,6 +142,57 @@ def dag_values(dag, assign, intern):
         return r
 
     return [val(k) for k in range(1, len(dag._nodes) + 1)]
+
+
+def is_stratified(nodes):
+    """No negative edge inside a strongly connected component (Tarjan, iterative)."""
+    n = len(nodes)
+    succ = [[abs(c) - 1 for c in nd[1] if c != 0] if nd[0] != "atom" else [] for nd in nodes]
+    index, low, comp, onstack, stack = [None] * n, [0] * n, [None] * n, [False] * n, []
+    counter = [0]
+    ncomp = [0]
+    for root in range(n):
+        if index[root] is not None:
+            continue
+        work = [(root, 0)]
+        while work:
+            v, i = work.pop()
+            if i == 0:
+                index[v] = low[v] = counter[0]
+                counter[0] += 1
+                stack.append(v)
+                onstack[v] = True
+            recurse = False
+            for j in range(i, len(succ[v])):
+                w = succ[v][j]
+                if w >= n:
+                    continue
+                if index[w] is None:
+                    work.append((v, j + 1))
+                    work.append((w, 0))
+                    recurse = True
+                    break
+                elif onstack[w]:
+                    low[v] = min(low[v], index[w])
+            if recurse:
+                continue
+            if low[v] == index[v]:
+                while True:
+                    w = stack.pop()
+                    onstack[w] = False
+                    comp[w] = ncomp[0]
+                    if w == v:
+                        break
+                ncomp[0] += 1
+            if work:
+                u = work[-1][0]
+                low[u] = min(low[u], low[v])
+    for v, nd in enumerate(nodes):
+        if nd[0] != "atom":
+            for c in nd[1]:
+                if c < 0 and -c - 1 < n and comp[-c - 1] == comp[v]:
+                    return False
+    return True
 
 
 def is_topological(nodes):
@@ -285,6 +338,37 @@ def gen_builder_ops(rng, max_atoms):
     return {"atoms": atoms, "rules": rules, "names": names}
 
 
+def gen_dense_ops(rng):
+    """Few atoms, many mutually recursive defined nodes: stresses the translation memo
+    (reuse with non-empty cycles_broken) and the duplication of nodes."""
+    natoms = rng.randint(2, 5)
+    ndef = rng.randint(4, 9)
+    nlev = rng.choice([1, 1, 2])
+    level = sorted(rng.randrange(nlev) for _ in range(ndef))
+    rules = []
+    for d in range(ndef):
+        rs = []
+        for _ in range(rng.randint(1, 3)):
+            body = []
+            for _ in range(rng.randint(1, 2)):
+                if rng.random() < 0.3:
+                    body.append(("a", rng.randrange(natoms), rng.random() < 0.15))
+                else:
+                    j = rng.randrange(ndef)
+                    if level[j] < level[d] and rng.random() < 0.5:
+                        body.append(("d", j, True))
+                    elif level[j] <= level[d]:
+                        body.append(("d", j, False))
+                    else:
+                        body.append(("a", rng.randrange(natoms), False))
+            rs.append(body)
+        rules.append(rs)
+    names = [("query", ("d", j), False) for j in rng.sample(range(ndef), min(ndef, rng.randint(2, 5)))]
+    for j in rng.sample(range(ndef), rng.choice([0, 1, 2])):
+        names.append((rng.choice(["ev+", "ev-"]), ("d", j), False))
+    return {"atoms": [("fact",)] * natoms, "rules": rules, "names": names}
+
+
 def build_formula(ops):
     from problog.formula import LogicFormula
     from problog.logic import Term
@@ -292,6 +376,7 @@ def build_formula(ops):
     akeys = []
     gid = 0
     for a in ops["atoms"]:
+        a = tuple(a)
         if a[0] == "fact":
             i = len(akeys)
             akeys.append(lf.add_atom(("fact", i), 0.3, name=Term("f%d" % i)))
@@ -333,7 +418,7 @@ def run_case(case):
     kind, payload, max_ids = case
     res = {"kind": kind, "payload": payload, "status": "ok", "violations": [], "notes": []}
     try:
-        lf = pl.with_timeout(ground_text, 20, payload) if kind == "text" else build_formula(payload)
+        lf = pl.with_timeout(ground_text, 10, payload) if kind == "text" else build_formula(payload)
     except BaseException as e:  # noqa
         if isinstance(e, (KeyboardInterrupt, SystemExit)):
             raise
@@ -357,6 +442,7 @@ def run_case(case):
     res["empty_disj"] = any(nd[0] != "atom" and len(nd[1]) == 0 for nd in F)
     res["cyclic"] = not is_topological(F)
     res["negation"] = any(c < 0 for nd in F if nd[0] != "atom" for c in nd[1])
+    res["stratified"] = is_stratified(F)
     # ---------------- implementation: break_cycles
     try:
         dag = LogicDAG.create_from(lf)
@@ -548,12 +634,15 @@ def run(ctx):
             with open(os.path.join(vf.CORPUS, "C09", f)) as fh:
                 r = json.load(fh)
             cases.append((r["kind"], r["program"] if r["kind"] == "text" else r["ops"], 16))
-        ntext = ctx.n(120, 2500)
-        nbuild = ctx.n(180, 3500)
+        ntext = ctx.n(120, 4000)
+        nbuild = ctx.n(150, 5000)
+        ndense = ctx.n(80, 3000)
         for _ in range(ntext):
             cases.append(("text", gen_program(ctx.rng, ctx.rng.choice([5, 7, 9, max_ids - 1])), max_ids))
         for _ in range(nbuild):
             cases.append(("builder", gen_builder_ops(ctx.rng, ctx.rng.choice([4, 6, 8, max_ids - 2])), max_ids))
+        for _ in range(ndense):
+            cases.append(("builder", gen_dense_ops(ctx.rng), max_ids))
     ctx.log("running %d cases through LogicDAG.create_from / CNF.create_from and the reference semantics" % len(cases))
     results = pl.pmap(run_case, cases, jobs=ctx.n(6, 12), chunksize=8)
 
@@ -586,6 +675,8 @@ def run(ctx):
         ctx.count("cyclic" if res["cyclic"] else "acyclic")
         if res["negation"]:
             ctx.count("with_negation")
+        ctx.count("stratified (hypothesis of C09_break_cycles_correct holds)" if res["stratified"]
+                  else "not stratified but two-valued (validator only)")
         if res["ads"]:
             ctx.count("with_AD_constraints")
         if res["evidence_keys"]:
@@ -623,6 +714,9 @@ def run(ctx):
                               % (str(replay_text(res))[:600],))
             ctx.notes.append("model: %s\nimpl: D=%r L=%r E=%r" % (o[:800], res["D"], res["D_labeled"], res["D_evidence"]))
     ctx.cov["break_model_equals_impl"] = agree
+    # how often does the `translation` memo change the result? (same model with use_memo = false)
+    out0 = ctx.oracle(exe, ["BREAK 0" + l[len("BREAK 1"):] for l in lines])
+    ctx.cov["memo_changes_dag"] = sum(1 for x, y in zip(out, out0) if x != y)
 
     # 2. validate_break on the implementation's DAG
     lines = []
